@@ -1,13 +1,43 @@
 // C02 -- progress on a clean path (exactly once, in order, bounded latency) and recovery after faults.
 #include "tunnel_common.h"
+#include "session_common.h"
 #include "advnet_case.h"
 using namespace hz;
+
+// Scripted conforming sender against the real server (the history generator of C01's second shape).  What is judged here is delivery:
+// a packet whose first fragment made the server start over (it held the first fragment of a packet the sender had given up, under the
+// same 3-bit sequence number) and whose fragments then all arrive, in order, on a path that behaves, has to be written to the server's
+// tun device.  The trouble (lost acknowledgements, seven packets lost entirely) lies before the packet is offered.
+static CaseResult restart_case(Tape &t)
+{
+	CaseResult r;
+	ses::Profile P;
+	P.w_ping = 5; P.w_up = 9; P.w_offer = 2; P.w_adv = 2; P.w_nreq = 0; P.w_redeliver = 2; P.w_freeze = 1;
+	P.max_sessions = 1; P.max_body = 600; P.max_actions = 80; P.wrap_games = true;
+	ses::Run R;
+	ses::run_sessions(t, P, R);
+	r.render = "scripted sender, packet offered after the trouble: " + R.render;
+	r.cls("mode:scripted-sender-restart");
+	if (sim::W.livelock) r.fail("C02:livelock", "simulation did not make progress");
+	if (!R.up) return r;
+	std::vector<mon::TunEv> wr = R.tm.writes_of(R.s->srv->idx);
+	for (auto &pkt : R.must_deliver) {
+		bool found = false;
+		for (auto &w : wr) if (w.data == pkt) found = true;
+		if (!found) { r.fail("C02:lost-upstream-after-restart", scn::fmt("a %zu-byte packet sent completely on a clean path (the server had acknowledged its first fragment, which replaced the first fragment of a packet given up earlier) never reached the server's tun device: %s", pkt.size(), hexs(pkt, 32).c_str()) + "\n" + r.render); break; }
+	}
+	r.nontrivial = !R.must_deliver.empty();
+	if (r.nontrivial) r.cls("restart-after-abandoned-first-fragment");
+	return r;
+}
 
 static CaseResult run_case(Tape &t)
 {
 	// one case in twelve: the adversarial-network histories of C01's third shape (sequence-number wrap downstream, merge variant),
 	// followed by a clean path on which delivery has to resume
-	if (t.chance(1, 12)) { CaseResult a = advnet::downwrap_case(t, true); a.cls("mode:adversarial-history+clean-suffix"); return a; }
+	const char *shape = getenv("VERIF_C02_SHAPE");   // development aid: s forces the scripted-sender shape (the draws still happen)
+	bool adv = t.chance(1, 12);
+	if (adv || (shape && *shape == 's')) { if (t.chance(1, 2) || (shape && *shape == 's')) return restart_case(t); CaseResult a = advnet::downwrap_case(t, true); a.cls("mode:adversarial-history+clean-suffix"); return a; }
 	CaseResult r;
 	tun::Run R;
 	tun::Mode m = t.chance(1, 2) ? tun::RECOVER : tun::CLEAN;
